@@ -669,6 +669,27 @@ example : (runRequest { handler := { out := .exc },
                         hooks := fun p => if p = .beforeErrorResponse then [⟨1, 50, false, .httpRedirect 303⟩] else [] }
             .get false false).st.out = some 303 := by decide
 
+/-- a failing handler on a page whose `before_error_response` hook raises `HTTPRedirect(303)` -/
+def redirectingErrorHookPage : Page :=
+  { handler := { out := .exc }
+    hooks := fun p => if p = .beforeErrorResponse then [⟨1, 50, false, .httpRedirect 303⟩] else [] }
+
+/-- The 5xx clause without the error-path hypothesis: every unexpected failure is answered ≥ 500. -/
+def C01_unexpected_is_5xx_full : Prop :=
+  ∀ (pg : Page) (m : Method) (nh bq : Bool), (doRespond pg m nh bq {}).exn = some .exc →
+    ∃ c, (runRequest pg m nh bq).st.out = some c ∧ 500 ≤ c
+
+/-- It cannot hold as such: an application whose `before_error_response` hook raises `HTTPRedirect(303)`
+    gets its 303 (by design — this is the application's own choice, not a defect; the hypothesis
+    `PlainErrorPath` of `C01_unexpected_is_5xx` excludes exactly this). -/
+theorem C01_unexpected_is_5xx_full_false : ¬ C01_unexpected_is_5xx_full := by
+  intro h
+  obtain ⟨c, hc, h5⟩ := h redirectingErrorHookPage .get false false (by decide)
+  have h303 : (runRequest redirectingErrorHookPage .get false false).st.out = some 303 := by decide
+  rw [h303] at hc
+  cases hc
+  omega
+
 /-- every code `HTTPRedirect.set_response` knows is a status `finalize` accepts (generated tables) -/
 theorem redirectKnown_valid : ∀ c ∈ CpModel.Gen.Pipeline.redirectKnownCodes,
     inRanges CpModel.Gen.Pipeline.validStatusRanges c = true ∧ c ≠ 0 := by decide
